@@ -844,6 +844,71 @@ private theorem completed_of_final {cfg : Cfg} {anc : Blk} {target npeers : Nat}
     obtain ⟨k, hk⟩ := List.getElem?_of_mem hmem
     exact (delivery_order cfg anc target npeers (pre evs n) hb k b hk).2
 
+/-- **Progress, measured.** `progress` names a step that *changes* the state; for the tick and the
+chain service's answer that alone says little (a tick always changes ages). Here the same three steps
+are shown to *cost a unit of the measure* `phi`, i.e. to do real work: in every reachable state of a
+session (hypotheses of `progress`) that has not stopped, either everything announced so far is
+connected and nothing is queued; or a block is being connected and ANY AddBlock reply costs a unit
+(it connects the block or stops the session); or tasks are running and a tick beyond the timeout
+costs a unit (a task fails over, or the session stops with `ErrAllPeerBad`); or a scheduler pass
+costs a unit (it starts a task). -/
+theorem progress_costs (cfg : Cfg) (anc : Blk) (target npeers : Nat) (es : List Ev)
+    (hb : HeightBound es) (hhs : HashSetsFrom (anc.no + 1) es)
+    (hsz : 0 < cfg.maxFetchSize) (htk : 0 < cfg.maxFetchTasks) (hpc : 0 < cfg.maxPendingConn)
+    (hnp : 0 < npeers) :
+    let s := (run (St.init cfg anc target npeers) es).1
+    s.halted = true ∨
+    (s.curBlock = none ∧ nextNo s = annEnd (anc.no + 1) es ∧ s.running = [] ∧ s.retryQ = [] ∧
+      s.pending = [] ∧ s.hfq = [] ∧ s.connQ = []) ∨
+    (s.curBlock ≠ none ∧ ∀ no hash err nilHash, phi (step s (.addRsp no hash err nilHash)).1 + 1 ≤ phi s) ∨
+    (s.running ≠ [] ∧ phi (step s (.tick (s.cfg.timeout + 1))).1 + 1 ≤ phi s) ∨
+    (s.curBlock = none ∧ s.running = [] ∧ phi (step s .sched).1 + 1 ≤ phi s) := by
+  intro s
+  have hq : QInv s := run_qinv es _ (init_qinv cfg anc target npeers)
+  by_cases hh : s.halted = true
+  · exact Or.inl hh
+  · have hh' : s.halted = false := by simpa using hh
+    rcases progress cfg anc target npeers es hb hhs hsz htk hpc hnp with h | h | ⟨cb, hcb, _⟩ | ⟨hrun, _⟩ | ⟨hcb, hrun, hne⟩
+    · exact Or.inl h
+    · exact Or.inr (Or.inl h)
+    · refine Or.inr (Or.inr (Or.inl ⟨by rw [hcb]; simp, ?_⟩))
+      intro no hash err nilHash
+      exact addRsp_eff no hash err nilHash hq hh'
+    · refine Or.inr (Or.inr (Or.inr (Or.inl ⟨hrun, ?_⟩)))
+      cases hr : s.running with
+      | nil => exact absurd hr hrun
+      | cons t r => exact tick_overdue (t := t) hq hh' (by rw [hr]; simp) (by omega)
+    · refine Or.inr (Or.inr (Or.inr (Or.inr ⟨hcb, hrun, ?_⟩)))
+      obtain ⟨_, hd⟩ := step_dich .sched hq hh'
+      rcases hd with hd | ⟨hd, _⟩
+      · simpa [gain] using hd
+      · exact absurd hd hne
+
+/-- **Success is reported only with the whole range delivered** — for every event list, fair or
+not, whatever peers and chain service answer: if the session has sent the success notice, the blocks
+of heights `ancestor+1 … target` have all been handed to the chain service before, in this order,
+each carrying an id announced for its height. -/
+theorem success_only_with_whole_range (cfg : Cfg) (anc : Blk) (target npeers : Nat) (es : List Ev)
+    (hb : HeightBound es)
+    (h : Out.stop none ∈ (run (St.init cfg anc target npeers) es).2) :
+    target - anc.no ≤ (delivered (run (St.init cfg anc target npeers) es).2).length ∧
+    ∀ k, k < target - anc.no → ∃ b, (delivered (run (St.init cfg anc target npeers) es).2)[k]? = some b ∧
+      b.no = anc.no + 1 + k ∧ Announced es b.no b.hash := by
+  have hlen : target - anc.no ≤ (delivered (run (St.init cfg anc target npeers) es).2).length := by
+    rcases run_stop_none_delivered es (St.init cfg anc target npeers) h with ⟨b, hb', _⟩ | ⟨b, hmem, hbt⟩
+    · simp [St.init] at hb'
+    · obtain ⟨k, hk⟩ := List.getElem?_of_mem hmem
+      have h1 := (delivery_order cfg anc target npeers es hb k b hk).1
+      have h2 : k < (delivered (run (St.init cfg anc target npeers) es).2).length :=
+        (List.getElem?_eq_some_iff.mp hk).1
+      have h3 : b.no = target := hbt
+      omega
+  refine ⟨hlen, ?_⟩
+  intro k hk
+  have hk' : k < (delivered (run (St.init cfg anc target npeers) es).2).length := by omega
+  refine ⟨_, List.getElem?_eq_getElem hk', ?_⟩
+  exact delivery_order cfg anc target npeers es hb k _ (List.getElem?_eq_getElem hk')
+
 /-- **Every step costs measure or changes nothing but ages.** For every state whatever (with the
 bookkeeping invariant `QInv`, which holds in every state of every session: `session_steps_bounded`)
 and every event: the step either lowers `phi` by at least one (counting the weight a hash set
